@@ -494,11 +494,178 @@ theorem mem_glob_write (fs : FS) (d p : Path) (b : List UInt8) (hg : globMatch d
   obtain ⟨f, hf, hfp⟩ := List.mem_map.1 this
   exact ⟨f, ⟨hf, by rw [hfp]; exact hg⟩, hfp⟩
 
+/-! ## where reading a printed dict breaks down when the hook raises -/
+
+theorem topDone_run {st st' : St} (hd : TopDone st) (q : Str) (h : run st q = .ok st') : TopDone st' := by
+  induction q generalizing st with
+  | nil => simp only [run, Except.ok.injEq] at h; subst h; exact hd
+  | cons c cs ih =>
+    rw [run_cons] at h
+    cases hs : step st c with
+    | ok s1 => rw [hs] at h; exact ih (topDone_step hd hs) h
+    | error e => rw [hs] at h; cases h
+
+/-- **Prefix lemma, second form.**  If reading `g` ends inside a container, no prefix of `g` is a complete document. -/
+theorem loads_prefix_inside (g : Str) (st : St) (hr : run initSt g = .ok st) (hs : st.stack ≠ []) (k : Nat) :
+    loads (g.take k) = .error .exc := by
+  have e : g = g.take k ++ g.drop k := (List.take_append_drop k g).symm
+  rw [e] at hr
+  obtain ⟨st1, h1, h2⟩ := run_append_ok hr
+  unfold loads
+  rw [h1]
+  simp only
+  cases hf : finish st1 with
+  | error e => rw [finish_error_exc hf]
+  | ok w => exact absurd (topDone_run (finish_ok_topDone hf) _ h2).1 hs
+
+/-- reading `pv lvl a` breaks down with an exception at a `}` strictly inside it whenever `lv a` raises -/
+def FailsInside {α} (pv : Nat → α → Str) (lv : α → Except Err JVal) (P : α → Prop) : Prop :=
+  ∀ a, P a → lv a = .error .exc → ∀ lvl stack, ValStack stack →
+    ∃ g tail st, pv lvl a = g ++ 125 :: tail ∧ run ⟨stack, .val⟩ g = .ok st ∧ st.stack ≠ [] ∧ step st 125 = .error .exc
+
+theorem failsInside_members {α} {pv : Nat → α → Str} {lv : α → Except Err JVal} {P : α → Prop}
+    (hrb : ReadsBack pv lv P) (hfi : FailsInside pv lv P)
+    (lvl : Nat) (ms : List (Str × α)) (hms : MembersOk P ms)
+    (d : List (Str × JVal)) (stack : List Frame) (m : Mode) (hm : m = .obj0 ∨ m = .key)
+    (hfail : loadMembers lv ms d = .error .exc) :
+    ∃ g tail st, printMembers pv lvl ms = g ++ 125 :: tail ∧ run ⟨.objK d :: stack, m⟩ g = .ok st ∧ st.stack ≠ [] ∧
+      step st 125 = .error .exc := by
+  induction ms generalizing d m with
+  | nil => simp [loadMembers] at hfail
+  | cons x r ih =>
+    obtain ⟨k, a⟩ := x
+    have hk : ValidStr k := (hms (k, a) (by simp)).1
+    have ha : P a := (hms (k, a) (by simp)).2
+    simp only [loadMembers] at hfail
+    cases hla : lv a with
+    | error e =>
+      rw [hla] at hfail
+      simp only [Except.error.injEq] at hfail
+      subst hfail
+      obtain ⟨g0, tail0, st, hp, hrun, hne, hst⟩ := hfi a ha hla lvl (.objV d k :: stack) trivial
+      cases r with
+      | nil =>
+        refine ⟨printStr k ++ 58 :: 32 :: g0, tail0, st, ?_, ?_, hne, hst⟩
+        · simp only [printMembers, hp, List.append_assoc, List.cons_append, List.nil_append]
+        · rw [run_key d stack m hm k hk]; exact hrun
+      | cons y r' =>
+        refine ⟨printStr k ++ 58 :: 32 :: g0, tail0 ++ (44 :: nlIndent lvl) ++ printMembers pv lvl (y :: r'), st, ?_, ?_, hne, hst⟩
+        · simp only [printMembers, hp, List.append_assoc, List.cons_append, List.nil_append]
+        · rw [run_key d stack m hm k hk]; exact hrun
+    | ok v =>
+      rw [hla] at hfail
+      simp only at hfail
+      cases r with
+      | nil => simp [loadMembers] at hfail
+      | cons y r' =>
+        obtain ⟨g1, tail1, st, hp, hrun, hne, hst⟩ :=
+          ih (fun m hm => hms m (by simp [hm])) (dictSet d k v) .key (Or.inr rfl) hfail
+        refine ⟨printStr k ++ 58 :: 32 :: (pv lvl a ++ 44 :: (nlIndent lvl ++ g1)), tail1, st, ?_, ?_, hne, hst⟩
+        · simp only [printMembers, hp, List.append_assoc, List.cons_append, List.nil_append]
+        · rw [run_key d stack m hm k hk]
+          rw [hrb a ha lvl (.objV d k :: stack) trivial 44 (Or.inl rfl), hla]
+          simp only [deliver, andThen]
+          have e1 : step ⟨.objK (dictSet d k v) :: stack, .after⟩ 44 = .ok ⟨.objK (dictSet d k v) :: stack, .key⟩ := by
+            simp [step, afterStep, isWs]
+          rw [run_cons, e1]; dsimp only
+          rw [run_nlIndent (.objK (dictSet d k v) :: stack) .key trivial]
+          exact hrun
+
+theorem hook_nil : hook [] = .ok (.obj []) := by
+  simp [hook, dictGet]
+
+theorem failsInside_printObj {α} {pv : Nat → α → Str} {lv : α → Except Err JVal} {P : α → Prop}
+    (hrb : ReadsBack pv lv P) (hfi : FailsInside pv lv P) : FailsInside (printObj pv) (loadObj lv) (MembersOk P) := by
+  intro ms hms hfail lvl stack _
+  have e1 : step ⟨stack, .val⟩ 123 = .ok ⟨.objK [] :: stack, .obj0⟩ := by simp [step, isWs, startValue]
+  cases ms with
+  | nil => simp [loadObj, loadMembers, hook_nil] at hfail
+  | cons x r =>
+    unfold loadObj at hfail
+    cases hlm : loadMembers lv (x :: r) [] with
+    | error e =>
+      rw [hlm] at hfail
+      simp only [Except.error.injEq] at hfail
+      subst hfail
+      obtain ⟨g1, tail1, st, hp, hrun, hne, hst⟩ :=
+        failsInside_members hrb hfi (lvl + 1) (x :: r) hms [] stack .obj0 (Or.inl rfl) hlm
+      refine ⟨123 :: (nlIndent (lvl + 1) ++ g1), tail1 ++ nlIndent lvl ++ [125], st, ?_, ?_, hne, hst⟩
+      · simp only [printObj, hp, List.append_assoc, List.cons_append, List.nil_append]
+      · rw [run_cons, e1]; dsimp only
+        rw [run_nlIndent (.objK [] :: stack) .obj0 trivial]
+        exact hrun
+    | ok d' =>
+      rw [hlm] at hfail
+      simp only at hfail
+      have hmem := run_printMembers hrb (lvl + 1) (x :: r) (by simp) hms [] stack .obj0 (Or.inl rfl)
+        (List.replicate (Gen.C11.indent * lvl) 32)
+      rw [hlm] at hmem
+      simp only at hmem
+      refine ⟨123 :: (nlIndent (lvl + 1) ++ printMembers pv (lvl + 1) (x :: r) ++ nlIndent lvl), [],
+        ⟨.objK d' :: stack, .after⟩, ?_, ?_, by simp, ?_⟩
+      · simp only [printObj, List.append_assoc, List.cons_append, List.nil_append]
+      · rw [run_cons, e1]; dsimp only
+        rw [List.append_assoc, run_nlIndent (.objK [] :: stack) .obj0 trivial]
+        simp only [nlIndent] at hmem ⊢
+        rw [hmem, run_cons, step_ws (.objK d' :: stack) .after trivial 10 (by decide)]; dsimp only
+        have := run_spaces (.objK d' :: stack) .after trivial (Gen.C11.indent * lvl) []
+        rw [List.append_nil] at this
+        rw [this]; rfl
+      · simp only [step, afterStep, isWs, closeObj, hfail]
+        simp
+
+theorem failsInside_printElem : FailsInside printElem loadElem Elem.Valid := by
+  intro e _ h
+  rw [loadElem_eq] at h
+  cases h
+
+theorem failsInside_printGroup : FailsInside printGroup loadGroup GroupValid :=
+  failsInside_printObj readsBack_printElem failsInside_printElem
+
+theorem failsInside_printToc : FailsInside (printObj printGroup) (loadObj loadGroup) TocValid :=
+  failsInside_printObj readsBack_printGroup failsInside_printGroup
+
+/-- **Truncation, every table.**  `json.loads` raises on every proper prefix of the text `insert` writes for a table,
+whether the complete text loads (then by the prefix lemma) or the hook raises somewhere in it (then every shorter prefix
+ends inside a container and every longer one contains the raising `}`). -/
+theorem loads_truncated (t : Toc) (hv : TocValid t) (hwf : TocWF t) (k : Nat) (hk : k < (printToc t).length) :
+    loads ((printToc t).take k) = .error .exc := by
+  rcases loadToc_cases t hwf with hok | herr
+  · obtain ⟨body, hb⟩ := printObj_ends printGroup 0 t
+    have hb' : printToc t = body ++ [125] := hb
+    have hl : loads (body ++ [125]) = .ok (tocVal t) := by rw [← hb', loads_printToc t hv, hok]
+    rw [hb'] at hk ⊢
+    exact loads_proper_prefix body _ hl k (by simp at hk; omega)
+  · obtain ⟨g, tail, st, hp, hrun, hne, hst⟩ := failsInside_printToc t hv herr 0 [] trivial
+    have hp' : printToc t = g ++ 125 :: tail := hp
+    rw [hp']
+    by_cases hkg : k ≤ g.length
+    · rw [List.take_append_of_le_length hkg]
+      exact loads_prefix_inside g st hrun hne k
+    · obtain ⟨j, hj⟩ : ∃ j, k = g.length + (j + 1) := ⟨k - g.length - 1, by omega⟩
+      have e : (g ++ 125 :: tail).take k = g ++ 125 :: tail.take j := by
+        subst hj
+        rw [List.take_append, List.take_of_length_le (by omega)]
+        simp
+      rw [e]
+      unfold loads
+      rw [run_append]
+      have hrun' : run initSt g = .ok st := hrun
+      rw [hrun']
+      simp only [run_cons, hst]
+
+/-- ... on the bytes of the file -/
+theorem loadBytes_truncated_all (t : Toc) (hv : TocValid t) (hwf : TocWF t) (k : Nat)
+    (hk : k < (encodeText (printToc t)).length) :
+    loadBytes ((encodeText (printToc t)).take k) = .error .exc := by
+  rw [encodeText_take, loadBytes_plain _ (fun x hx => printToc_plain t x (List.mem_of_mem_take hx))]
+  exact loads_truncated t hv hwf k (by simpa [encodeText] using hk)
+
 /-- the write of `insert` is cut after `k` bytes (crash / write error), a new process builds a new `TocCache` over the
 same directories: the checksum is a miss -/
 theorem crash_restart_aux (fs : FS) (c : Cache) (crc : Nat) (toc : Toc) (k : Nat) (d : Path) (ro : Option Path)
     (hrw : c.rw = some d) (hw : fs.canWrite d = true) (hcrc : crc < 4294967296)
-    (v : JVal) (hl : loads (printToc toc) = .ok v) (hk : k < (encodeText (printToc toc)).length)
+    (hv : TocValid toc) (hwf : TocWF toc) (hk : k < (encodeText (printToc toc)).length)
     (fs2 : FS) (c2 : Cache) (hinit : Cache.init (c.insertCut fs crc toc k).1 ro (some d) = .ok (fs2, c2))
     (huniq : ∀ q ∈ glob (c.insertCut fs crc toc k).1 d, endsWith q (hex08 crc ++ dotJson) = true → q = storedName d crc) :
     c2.fetch fs2 crc = .ok .null := by
@@ -512,6 +679,6 @@ theorem crash_restart_aux (fs : FS) (c : Cache) (crc : Nat) (toc : Toc) (k : Nat
   have hhit : findHit c2.files (hex08 crc ++ dotJson) = some (storedName d crc) := by
     rw [hf]
     exact findHit_append_unique f1 _ _ _ hmem (storedName_endsWith_self d crc) huniq
-  rw [fetch_of_hit fs2 c2 crc _ _ hhit hread, loadBytes_truncated toc v hl k hk]
+  rw [fetch_of_hit fs2 c2 crc _ _ hhit hread, loadBytes_truncated_all toc hv hwf k hk]
 
 end CfVerif.C11
